@@ -5,7 +5,6 @@ import (
 	"encoding/json"
 	"fmt"
 	"regexp"
-	"strings"
 	"sync"
 	"time"
 
@@ -109,7 +108,7 @@ func accepted(scs []*Scenario, lock, stop bool, tag string, st *tlcStats) map[*S
 					buf.WriteByte('\n')
 				}
 			}
-			res, err := vlib.RunTLC(vlib.TLCOpts{Module: "StreamTrace", Config: "StreamTrace.cfg", Workers: 1, DFS: true,
+			res, err := vlib.RunTLC(vlib.TLCOpts{Module: "StreamTrace", Config: traceCfg(lock, stop), Workers: 1, DFS: true,
 				Data:    map[string][]byte{"trace.ndjson": buf.Bytes()},
 				CfgEdit: constEdit(lock, stop, true),
 				Scratch: vlib.Work("C12", fmt.Sprintf("tv-%s-%d", tag, ci)), Timeout: 25 * time.Minute})
@@ -142,6 +141,22 @@ func accepted(scs []*Scenario, lock, stop bool, tag string, st *tlcStats) map[*S
 	return out
 }
 
+var (
+	reLock = regexp.MustCompile(`(?m)^  LockWrites = \w+`)
+	reStop = regexp.MustCompile(`(?m)^  StopKA = \w+`)
+	reSkip = regexp.MustCompile(`(?m)^  AllowSkip = \w+`)
+)
+
+// traceCfg names the configuration file: the strict one is the property,
+// StreamTraceDev.cfg the deviation-tolerant one (its two constants are also
+// set one at a time to tell the two deviations apart).
+func traceCfg(lock, stop bool) string {
+	if lock && stop {
+		return "StreamTrace.cfg"
+	}
+	return "StreamTraceDev.cfg"
+}
+
 func constEdit(lock, stop, skip bool) func(string) string {
 	tf := func(b bool) string {
 		if b {
@@ -150,9 +165,9 @@ func constEdit(lock, stop, skip bool) func(string) string {
 		return "FALSE"
 	}
 	return func(cfg string) string {
-		cfg = strings.Replace(cfg, "LockWrites = TRUE", "LockWrites = "+tf(lock), 1)
-		cfg = strings.Replace(cfg, "StopKA = TRUE", "StopKA = "+tf(stop), 1)
-		cfg = strings.Replace(cfg, "AllowSkip = TRUE", "AllowSkip = "+tf(skip), 1)
+		cfg = reLock.ReplaceAllString(cfg, "  LockWrites = "+tf(lock))
+		cfg = reStop.ReplaceAllString(cfg, "  StopKA = "+tf(stop))
+		cfg = reSkip.ReplaceAllString(cfg, "  AllowSkip = "+tf(skip))
 		return cfg
 	}
 }
